@@ -1,6 +1,7 @@
 package verifsim
 
 import (
+	"regexp"
 	"encoding/json"
 	"fmt"
 	"sort"
@@ -61,6 +62,8 @@ func respHasCanary(resp *logical.Response, canary string) bool {
 	}
 	return false
 }
+
+var clientTokenRe = regexp.MustCompile(`"client_token":"[^"]+"`)
 
 func keysUnder(d *Disk, prefixes ...string) []string {
 	var out []string
@@ -135,13 +138,60 @@ func runC18(rc *RunCtx) {
 	}
 	baseline := keysUnder(disk, "sys/token/", "logical/")
 
-	// ---- the wrapped read ----
+	// ---- the wrapped request: a KV read, a list, or a login ----
+	payloadKind := []string{"secret", "secret", "list", "login"}[tp.Pick(4)]
+	if payloadKind == "login" && !entityRequester {
+		must(h.EnableAuth("rec", "rec"))
+	}
+	rc.Cfg("payload", payloadKind)
+	wrapPath := "secret/foo"
+	wrapReq := Req{Op: logical.ReadOperation, Path: "secret/foo", Token: requester}
+	switch payloadKind {
+	case "list":
+		// the key NAME is the canary
+		if _, err := h.RootWrite("secret/dir/"+canary, map[string]any{"v": "x"}); err != nil {
+			panic(err)
+		}
+		wrapPath = "secret/dir/"
+		wrapReq = Req{Op: logical.ListOperation, Path: wrapPath, Token: requester}
+	case "login":
+		wrapPath = "auth/rec/login"
+		wrapReq = Req{Op: logical.UpdateOperation, Path: wrapPath, Data: map[string]any{"policies": "reader", "ttl": 3600}}
+	}
+	// "the payload was obtained": the canary for secrets and listings, a client token for a wrapped login
+	gotPayload := func(r *logical.Response) bool {
+		if payloadKind == "login" {
+			if r == nil || r.IsError() {
+				return false
+			}
+			if r.Auth != nil && r.Auth.ClientToken != "" {
+				return true
+			}
+			// (unwrap hands the stored HTTP response back as a raw JSON body)
+			for _, v := range r.Data {
+				switch x := v.(type) {
+				case []byte:
+					if clientTokenRe.Match(x) {
+						return true
+					}
+				case string:
+					if clientTokenRe.MatchString(x) {
+						return true
+					}
+				}
+			}
+			return false
+		}
+		return respHasCanary(r, canary)
+	}
+	baseline = keysUnder(disk, "sys/token/", "logical/")
 	ttl := time.Duration(tp.Range(1, 600)) * time.Second
-	resp, err := h.Do("wrap", Req{Op: logical.ReadOperation, Path: "secret/foo", Token: requester, WrapTTL: ttl})
+	wrapReq.WrapTTL = ttl
+	resp, err := h.Do("wrap", wrapReq)
 	if err != nil || resp == nil || resp.WrapInfo == nil {
 		panic(fmt.Sprintf("wrapped read failed: %v %v", resp, err))
 	}
-	if respHasCanary(resp, canary) {
+	if gotPayload(resp) {
 		s.Violate("C18", "requester-saw-payload", nil, "the response of the wrapped request contains the payload")
 		return
 	}
@@ -177,15 +227,15 @@ func runC18(rc *RunCtx) {
 		} else if resp != nil && resp.IsError() {
 			o.err = resp.Error().Error()
 		}
-		o.gotCanary = respHasCanary(resp, canary)
+		o.gotCanary = gotPayload(resp)
 		return o
 	}
 
 	if expiry {
 		// sequential: lookup, cross the TTL (or not), unwrap
 		lr, lerr := h.Do("lookup", Req{Op: logical.UpdateOperation, Path: "sys/wrapping/lookup", Token: other, Data: map[string]any{"token": wtok}})
-		if lerr != nil || lr == nil || lr.Data["creation_path"] != createdPath || createdPath != "secret/foo" {
-			s.Violate("C18", "lookup-wrong-creation-path", nil, "lookup reported %v (err %v), want creation_path secret/foo", lr, lerr)
+		if lerr != nil || lr == nil || lr.Data["creation_path"] != createdPath || createdPath != wrapPath {
+			s.Violate("C18", "lookup-wrong-creation-path", nil, "lookup reported %v (err %v), want creation_path %s", lr, lerr, wrapPath)
 			return
 		}
 		// the wrapping token must be refused on any other path (a refused
@@ -272,17 +322,17 @@ func runC18(rc *RunCtx) {
 				} else if resp != nil && resp.WrapInfo != nil {
 					o.newTok = resp.WrapInfo.Token
 				}
-				o.gotCanary = respHasCanary(resp, canary)
+				o.gotCanary = gotPayload(resp)
 				record(o)
 			case "lookup":
 				resp, err := h.Do(name, Req{Op: logical.UpdateOperation, Path: "sys/wrapping/lookup", Token: other, Data: map[string]any{"token": wtok}})
 				o := outcome{task: name, kind: "lookup"}
 				if err != nil {
 					o.err = err.Error()
-				} else if resp != nil && !resp.IsError() && resp.Data["creation_path"] != "secret/foo" {
+				} else if resp != nil && !resp.IsError() && resp.Data["creation_path"] != wrapPath {
 					o.err = "BAD-CREATION-PATH"
 				}
-				o.gotCanary = respHasCanary(resp, canary)
+				o.gotCanary = gotPayload(resp)
 				record(o)
 			case "revoke":
 				resp, err := h.Do(name, Req{Op: logical.UpdateOperation, Path: "auth/token/revoke-accessor", Token: h.Root, Data: map[string]any{"accessor": wacc}})
@@ -349,6 +399,11 @@ func runC18(rc *RunCtx) {
 	s.PassThrough()
 	if s.Faults["err-na"] == 0 {
 		after := keysUnder(disk, "sys/token/", "logical/")
+		if payloadKind == "login" {
+			// the token the wrapped login created lives on (with its accessor):
+			// only the wrapping token's cubbyhole is compared
+			after, baseline = onlyPrefix(after, "logical/"), onlyPrefix(baseline, "logical/")
+		}
 		if strings.Join(after, "\n") != strings.Join(baseline, "\n") {
 			extra := diffKeys(after, baseline)
 			// classify by what the mutation log says happened to the remnants
@@ -400,6 +455,17 @@ func diffKeys(a, b []string) []string {
 	for _, k := range b {
 		if !m[k] {
 			out = append(out, "-"+k)
+		}
+	}
+	return out
+}
+
+
+func onlyPrefix(keys []string, p string) []string {
+	var out []string
+	for _, k := range keys {
+		if strings.HasPrefix(k, p) {
+			out = append(out, k)
 		}
 	}
 	return out
